@@ -370,6 +370,11 @@ fn c08_positions(tier: Tier) -> Vec<Pos> {
         out.push(p.flip());
         out.push(p);
     }
+    // capture-promotions and blocked pushes on every file, both colours
+    for p in promo_slice(if tier == Tier::Quick { 500 } else { 40_000 }) {
+        out.push(p.flip());
+        out.push(p);
+    }
     out
 }
 
@@ -452,6 +457,31 @@ pub fn underpromotion_roots(per_class: usize) -> Vec<(Pos, &'static str)> {
         let of: Vec<&(Pos, &'static str)> = all.iter().filter(|(_, k)| *k == c).collect();
         let step = (of.len() / per_class.max(1)).max(1);
         out.extend(of.into_iter().step_by(step).take(per_class).cloned());
+    }
+    out
+}
+
+/// A slice of PROMO (a pawn on its 7th rank on every file, edge files included, with enemy pieces of
+/// every kind on the squares it can reach — blocked pushes, capture-promotions on either side — and
+/// both kings anywhere) and, four fifths, of PROMOX (the same with a blocked push, one capture and
+/// one more piece of every kind on each side): about `want` members, both sides to move.
+pub fn promo_slice(want: u64) -> Vec<Pos> {
+    let mut out = promo_slice_of(&PromoFam::thorough(), want / 5);
+    out.extend(promo_slice_of(&PromoX, want - want / 5));
+    out
+}
+
+fn promo_slice_of(fam: &dyn Family, want: u64) -> Vec<Pos> {
+    let stride = (fam.len() / (want * 2).max(1)) | 1; // about half of the indices decode to legal positions
+    let mut out = Vec::new();
+    let mut i = 17 % stride;
+    while i < fam.len() {
+        if let Some(p) = fam.decode(i) {
+            if p.has_legal_move() {
+                out.push(p);
+            }
+        }
+        i += stride;
     }
     out
 }
@@ -1210,6 +1240,7 @@ pub fn run_c11(tier: Tier) -> i32 {
     // search treats the two colours by separately written conditions on ranks
     let n_general = sp.len();
     sp.extend(pawn7_slice(if tier == Tier::Quick { 3_000 } else { 60_000 }));
+    sp.extend(promo_slice(if tier == Tier::Quick { 2_500 } else { 60_000 }));
     let n_races = sp.len() - n_general;
     let searches = AtomicU64::new(0);
     par_map_fine(&sp, |p| {
@@ -1235,7 +1266,7 @@ pub fn run_c11(tier: Tier) -> i32 {
         s1.quit();
         s2.quit();
     });
-    fams.push(json!({"family": "go depth 1..3 on P and flip(P)", "positions": sp.len(), "of_which_promotion_races_from_PAWN7": n_races, "searches": searches.load(Ordering::Relaxed), "secs": t0.elapsed().as_secs_f64()}));
+    fams.push(json!({"family": "go depth 1..3 on P and flip(P)", "positions": sp.len(), "of_which_promotion_races_from_PAWN7_and_PROMO": n_races, "searches": searches.load(Ordering::Relaxed), "secs": t0.elapsed().as_secs_f64()}));
 
     let mut cov = Coverage::new();
     cov.states = static_n.load(Ordering::Relaxed) + terms.len() as u64;
